@@ -36,6 +36,23 @@ type NewStoreCase struct {
 	Misconfig string         `json:"misconfig"` // "" | nilclient | nonames | emptyname (last) | emptyfirst | emptymid
 	ExpiryS   int            `json:"expiry_s"`  // StoreConfig.ExpiryAge in seconds (0 = none)
 	StampAgo  int            `json:"stamp_ago"` // cached entries were last accessed this many seconds ago (-1 = stamp 0)
+	// Embed: the tagged struct carries s1 in an EMBEDDED struct (promoted field) instead of directly
+	Embed bool `json:"embed,omitempty"`
+	// Many: this many further secrets m00, m01, ... are declared (the first ManyCached of them are in the cache)
+	Many       int `json:"many,omitempty"`
+	ManyCached int `json:"many_cached,omitempty"`
+	// Lookup: StoreConfig.AllowLookup is set (it has no bearing on construction)
+	Lookup bool `json:"lookup,omitempty"`
+}
+
+// TaggedInner is embedded in taggedEmb: its tagged field is declared through promotion.
+type TaggedInner struct {
+	S1 []byte `setec:"s1"`
+}
+
+type taggedEmb struct {
+	TaggedInner
+	S2 string `setec:"s2"`
 }
 
 var c10Pool = []string{"a", "b", "c", "d"}
@@ -77,6 +94,12 @@ func genNewStoreCase(rt *rapid.T) NewStoreCase {
 	c.Misconfig = rapid.SampledFrom([]string{"", "", "", "", "", "", "nilclient", "nonames", "emptyname", "emptyfirst", "emptymid"}).Draw(rt, "misconfig")
 	c.ExpiryS = rapid.SampledFrom([]int{0, 0, 10, 3600}).Draw(rt, "expiry")
 	c.StampAgo = rapid.SampledFrom([]int{-1, 0, 5, 11, 100000}).Draw(rt, "stampago")
+	c.Embed = c.UseStruct && rapid.Bool().Draw(rt, "embed")
+	c.Many = rapid.SampledFrom([]int{0, 0, 0, 0, 17, 33, 70}).Draw(rt, "many")
+	if c.Many > 0 {
+		c.ManyCached = rapid.SampledFrom([]int{0, 0, 5, c.Many / 2}).Draw(rt, "manycached")
+	}
+	c.Lookup = rapid.IntRange(0, 2).Draw(rt, "lookup") == 0
 	return c
 }
 
@@ -100,6 +123,14 @@ func runC10Bubble(dir string, c NewStoreCase, info *h.Info) *h.Violation {
 	svc := fake.NewSvc()
 	svc.PlainCtxErrors = c.PlainCtx
 	all := append(append([]string{}, c10Pool...), "s1", "s2", "zz", "b2", "0first")
+	var many []string
+	for i := 0; i < c.Many; i++ {
+		many = append(many, fmt.Sprintf("m%02d", i))
+	}
+	all = append(all, many...)
+	if c.Many > 0 {
+		info.Class(fmt.Sprintf("more-than-%d-declared-secrets", c.Many/10*10))
+	}
 	fk := c.FailKind
 	if fk == "" {
 		fk = "err"
@@ -128,7 +159,7 @@ func runC10Bubble(dir string, c NewStoreCase, info *h.Info) *h.Violation {
 	}
 	if c.Cache != "none" {
 		doc := model.CacheDoc{}
-		for _, n := range c.Cached {
+		for _, n := range append(append([]string{}, c.Cached...), many[:min(c.ManyCached, len(many))]...) {
 			la := int64(0)
 			if c.StampAgo >= 0 {
 				la = time.Now().Unix() - int64(c.StampAgo)
@@ -176,9 +207,14 @@ func runC10Bubble(dir string, c NewStoreCase, info *h.Info) *h.Violation {
 				return true
 			}
 		}
+		for _, x := range many[:min(c.ManyCached, len(many))] {
+			if x == n {
+				return true
+			}
+		}
 		return false
 	}
-	cfg := setec.StoreConfig{Secrets: append([]string{}, c.Names...), PollInterval: time.Hour, Logf: nolog, ExpiryAge: time.Duration(c.ExpiryS) * time.Second}
+	cfg := setec.StoreConfig{Secrets: append(append([]string{}, c.Names...), many...), AllowLookup: c.Lookup, PollInterval: time.Hour, Logf: nolog, ExpiryAge: time.Duration(c.ExpiryS) * time.Second}
 	if c.ExpiryS > 0 && cacheValid && len(c.Cached) > 0 && (c.StampAgo < 0 || c.StampAgo > c.ExpiryS) {
 		info.Class("stale-stamps-with-expiry-age")
 	}
@@ -186,13 +222,18 @@ func runC10Bubble(dir string, c NewStoreCase, info *h.Info) *h.Violation {
 		cfg.Cache = cache
 	}
 	var tg tagged
+	var tgE taggedEmb
 	var tg2 taggedAgain
 	declared := map[string]bool{}
-	for _, n := range c.Names {
+	for _, n := range append(append([]string{}, c.Names...), many...) {
 		declared[n] = true
 	}
 	if c.UseStruct {
 		cfg.Structs = []setec.Struct{{Value: &tg}}
+		if c.Embed {
+			cfg.Structs = []setec.Struct{{Value: &tgE}}
+			info.Class("struct-tag-on-a-promoted-field")
+		}
 		if c.TwoStructs {
 			cfg.Structs = append(cfg.Structs, setec.Struct{Value: &tg2})
 			info.Class("struct-tags-repeat-names")
@@ -291,6 +332,14 @@ func runC10Bubble(dir string, c NewStoreCase, info *h.Info) *h.Violation {
 		return h.V("returns-promptly-when-context-ends", "NewStore sent more than 50000 requests without returning (ctx=%s, ends at %v): it is spinning", c.Ctx, ctxEnd)
 	}
 	reqs := svc.Log()
+	if c.Misconfig == "nonames" && c.Lookup && cfg.Client != nil {
+		// no declared secrets but lookups allowed: a legitimate (lookup-only) store, built without a request
+		info.Class("lookup-only-store")
+		if o.err != nil || neverReturned || len(reqs) != 0 {
+			return h.V("succeeds-when-all-values-available", "no declared secrets, lookups allowed: err=%v never-returned=%v requests=%d", o.err, neverReturned, len(reqs))
+		}
+		return nil
+	}
 	if c.Misconfig != "" {
 		info.Class("misconfigured")
 		if o.err == nil || neverReturned || o.at != 0 || len(reqs) != 0 {
@@ -407,11 +456,20 @@ func runC10Bubble(dir string, c NewStoreCase, info *h.Info) *h.Violation {
 			if inCache(n) {
 				want = "cache-" + n
 			}
-			hd := o.st.Secret(n)
+			var hd setec.Secret
+			var got string
+			if v := h.Safely(func() *h.Violation {
+				if hd = o.st.Secret(n); hd != nil {
+					got = string(hd.Get())
+				}
+				return nil
+			}); v != nil {
+				return h.V("value-for-every-declared-secret", "NewStore succeeded with %d declared secrets, but obtaining and reading the handle of %q panics: %s", len(declared), n, v.Detail)
+			}
 			if hd == nil {
 				return h.V("value-for-every-declared-secret", "%q has no handle", n)
 			}
-			if got := string(hd.Get()); got != want {
+			if got != want {
 				return h.V("value-for-every-declared-secret", "%q: handle yields %q, want %q", n, got, want)
 			}
 		}
@@ -422,6 +480,9 @@ func runC10Bubble(dir string, c NewStoreCase, info *h.Info) *h.Violation {
 			}
 			if inCache("s2") {
 				w2 = "cache-s2"
+			}
+			if c.Embed {
+				tg.S1, tg.S2 = tgE.S1, tgE.S2
 			}
 			if string(tg.S1) != w1 || tg.S2 != w2 {
 				return h.V("value-for-every-declared-secret", "struct fields hold %q,%q want %q,%q", tg.S1, tg.S2, w1, w2)
